@@ -265,6 +265,12 @@ func fixedDocs() map[string]ldoc {
 			{Number: 2, Elems: []lelem{h(2, "hov2z"), para("pd7z"), hp(1, "hc8z"), hp(2, "hov2z"), para("pe9z"), hp(3, "ha1z"), para("pf10z")}},
 			{Number: 4, NoLayout: true, Elems: []lelem{h(1, "hc8z"), h(3, "hov2z"), para("pg11z")}},
 			{Number: 5, Elems: []lelem{hp(3, "hov2z"), para("ph12z"), hp(3, "hov2z"), para("pi13z"), hp(1, "hov2z"), para("pj14z")}}}},
+		// a list that continues on the next page starts there with a nested item: the chunk text keeps
+		// that item's indentation (createListChunk trimmed it away: efed37d)
+		"list-first-item-nested": {Pages: []lpage{
+			{Number: 1, Elems: []lelem{h(1, "ha1z"), {Kind: "l", Items: []litem{{0, "la2z"}, {1, "lb3z"}}}}},
+			{Number: 2, Elems: []lelem{{Kind: "l", Items: []litem{{1, "lc4z"}, {2, "ld5z"}, {0, "le6z"}}}, para("pa7z"),
+				{Kind: "l", Ordered: true, Items: []litem{{2, "lf8z"}, {0, "lg9z"}}}}}}},
 		"two-pages": {Pages: []lpage{{Number: 1, Elems: []lelem{h(1, "ha1z"), para("pa2z")}}, {Number: 2}, {Number: 3, Elems: []lelem{para("pb3z"), h(2, "hb4z"),
 			{Kind: "l", Items: []litem{{0, "la5z"}, {1, "lb6z"}, {0, "lc7z"}}}, {Kind: "t", Rows: [][]string{{"ta8z", "tb9z"}, {"tc10z", "td11z"}}}, {Kind: "i", Text: "ia12z"}}}}},
 	}
@@ -365,6 +371,11 @@ func runIndex(c *hx.Ctx, idx int, mode string) {
 			if e.Kind == "h" {
 				nh++
 			}
+			// createListChunk keeps the indentation of a nested first item (it used to trim it: efed37d);
+			// the chunk text of such a list is compared with the model like every other one
+			if e.Kind == "l" && len(e.Items) > 0 && e.Items[0].Level > 0 {
+				c.Count(mode + "/list-first-item-nested")
+			}
 		}
 	}
 	switch mode {
@@ -391,7 +402,7 @@ func runIndex(c *hx.Ctx, idx int, mode string) {
 }
 
 func Run(c *hx.Ctx) {
-	c.Rep.Rule = "random logical documents (0-9 pages, 0-8 elements per page: headings of levels 1-6 in any order, paragraphs of 1 word .. 4x the configured maximum, nested ordered/unordered lists, ragged tables, images with/without alt text, empty pages, pages without layout, non-consecutive page numbers, heading-like paragraphs matched through the table of contents) built as model.Document with Elements and Layout filled consistently; every text is made of words unique in the document; x all size presets and random custom size configurations (characters, tokens, words, sentences, paragraphs) x both chunkers (layout-based chunker with default, RAG-optimized and random ChunkerConfig); plus outline documents (heading nesting 2-6 deep, 2-4 sibling sections under one parent at every depth, each with its own body, one section per page or several, skipped and uneven sibling levels) through the element-based chunker and through the layout-based chunker under every MinHeadingLevel 1..6 with random non-size options; plus the same three families (random, layout, outline) and HTML files with recurring heading texts: about half of the headings take the text of an earlier heading (a few texts recur often, as \"Overview\" under every chapter) under other parents, on other pages and on the same page, at the same and at other levels, about half of them delivered as heading-like paragraphs matched through Layout.Headings and the rest as model.Heading elements, all other texts unique, a repeated heading being identified by its position among the occurrences of its text; table cells now and then hold pipes (escaped by Table.ToMarkdown); every tied document is sent a second time with only its size configuration (presets by name), the Lean side computing IsAboveMax/SplitToSize itself, and every tied layout case a second time without sentence pieces (splitIntoSentences computed by the model) and, for half of the list-atomic ones, a third time through the index-driven loop with FindAtomicBlocks/GetAtomicBlockAt; tabula.Open(html).Chunks() is compared with the model applied to Document(); plus a sentence family (layout documents with maxima 12-160 whose texts are 1 word .. 4x the maximum with sentence ends before blanks, capitals, lower-case ASCII and non-ASCII letters, initials, abbreviations, decimals, several ends in a row, continuation bytes 0x85/0xA0 before a capital; splitIntoSentences alone on such texts and on a stream over a tricky alphabet); histories of 0-12 updateSectionPath calls (two thirds without a skipped level, one third with arbitrary levels), AddPage sequences (numbers unset, preset, mixed), block-type sequences for FindAtomicBlocks, the named size presets and chunker configurations, and histories of 5-8 calls on one DocumentChunker and one Chunker over 2-3 documents; plus query histories: one document (mostly 2 or more pages) chunked through ChunkDocument / ChunkDocumentWithConfig / NewDocumentChunker().ChunkDocument, through the layout-based chunker with its result wrapped by rag.NewChunkCollection, or through tabula.Open(html).Chunks()/ChunksWithConfig, followed by 1-7 reads of the collection (FilterByPage/PageRange/Section/ElementType, FilterWith*, FilterByMin/MaxTokens, Search for a word of the document, Filter with a predicate, a hand-made sub-collection NewChunkCollection(ToSlice()[a:b]), GetByIndex/GetByID/First/Last, statistics, Markdown, JSON/JSONL/CSV/TSV export, exporters, per-chunk formatting), a quarter of them applied to the result of an earlier read; after every read the metadata clauses are evaluated again on the original collection and on the result; non-trivial = at least one element"
+	c.Rep.Rule = "random logical documents (0-9 pages, 0-8 elements per page: headings of levels 1-6 in any order, paragraphs of 1 word .. 4x the configured maximum, nested ordered/unordered lists (about a third of them starting with a nested item, level 1..4), ragged tables, images with/without alt text, empty pages, pages without layout, non-consecutive page numbers, heading-like paragraphs matched through the table of contents) built as model.Document with Elements and Layout filled consistently; every text is made of words unique in the document; x all size presets and random custom size configurations (characters, tokens, words, sentences, paragraphs) x both chunkers (layout-based chunker with default, RAG-optimized and random ChunkerConfig); plus outline documents (heading nesting 2-6 deep, 2-4 sibling sections under one parent at every depth, each with its own body, one section per page or several, skipped and uneven sibling levels) through the element-based chunker and through the layout-based chunker under every MinHeadingLevel 1..6 with random non-size options; plus the same three families (random, layout, outline) and HTML files with recurring heading texts: about half of the headings take the text of an earlier heading (a few texts recur often, as \"Overview\" under every chapter) under other parents, on other pages and on the same page, at the same and at other levels, about half of them delivered as heading-like paragraphs matched through Layout.Headings and the rest as model.Heading elements, all other texts unique, a repeated heading being identified by its position among the occurrences of its text; table cells now and then hold pipes (escaped by Table.ToMarkdown); every tied document is sent a second time with only its size configuration (presets by name), the Lean side computing IsAboveMax/SplitToSize itself, and every tied layout case a second time without sentence pieces (splitIntoSentences computed by the model) and, for half of the list-atomic ones, a third time through the index-driven loop with FindAtomicBlocks/GetAtomicBlockAt; tabula.Open(html).Chunks() is compared with the model applied to Document(); plus a sentence family (layout documents with maxima 12-160 whose texts are 1 word .. 4x the maximum with sentence ends before blanks, capitals, lower-case ASCII and non-ASCII letters, initials, abbreviations, decimals, several ends in a row, continuation bytes 0x85/0xA0 before a capital; splitIntoSentences alone on such texts and on a stream over a tricky alphabet); histories of 0-12 updateSectionPath calls (two thirds without a skipped level, one third with arbitrary levels), AddPage sequences (numbers unset, preset, mixed), block-type sequences for FindAtomicBlocks, the named size presets and chunker configurations, and histories of 5-8 calls on one DocumentChunker and one Chunker over 2-3 documents; plus query histories: one document (mostly 2 or more pages) chunked through ChunkDocument / ChunkDocumentWithConfig / NewDocumentChunker().ChunkDocument, through the layout-based chunker with its result wrapped by rag.NewChunkCollection, or through tabula.Open(html).Chunks()/ChunksWithConfig, followed by 1-7 reads of the collection (FilterByPage/PageRange/Section/ElementType, FilterWith*, FilterByMin/MaxTokens, Search for a word of the document, Filter with a predicate, a hand-made sub-collection NewChunkCollection(ToSlice()[a:b]), GetByIndex/GetByID/First/Last, statistics, Markdown, JSON/JSONL/CSV/TSV export, exporters, per-chunk formatting), a quarter of them applied to the result of an earlier read; after every read the metadata clauses are evaluated again on the original collection and on the result; non-trivial = at least one element"
 	runPresets(c)
 	runChunkerSettings(c)
 	for i, n := 0, c.N(300, 3000); i < n; i++ {
